@@ -368,6 +368,40 @@ def rule_moveonce(ctx, rep):
                                 why = "the re-typed Box is never dropped: the source storage leaks"
                     else:
                         why = "the source Box is re-created at type %s: dropping it would destroy the moved value a second time" % (F.ts(ga[0]) if ga else "?")
+            if not ok:
+                # or its storage is handed back directly: `dealloc(src as *mut u8, layout_of_T)` - only sound behind a test that
+                # the layout is not zero-sized (a `Box` of a zero-sized type owns no storage, its pointer is dangling)
+                from .. import model
+
+                for bi, t in B.calls():
+                    if model.classify(atomics.callee_of(t) or "")[0] != model.DEALLOC or not t["args"]:
+                        continue
+                    src = nobb(symx.expr(F, B, t["args"][0]))
+                    raws = []
+                    find_calls(src, "into_raw", raws)
+                    if not ((raws and _rooted_at_arg(raws[0][3][0], 1)) or _rooted_at_arg(src, 1)):
+                        continue
+                    guarded = False
+                    for sj, bl in enumerate(b["blocks"]):
+                        tt = bl["term"]
+                        if tt["k"] != "switch":
+                            continue
+                        c = B.condition(tt["discr"])
+                        if not c or c.get("op") not in ("Ne", "Eq", "Gt", "Lt"):
+                            continue
+                        x, y = nobb(symx.expr(F, B, c["a"])), nobb(symx.expr(F, B, c["b"]))
+                        sz, k = (x, y) if y[0] == "const" else (y, x)
+                        if k != ("const", 0) or not (sz[0] == "call" and sz[2] in ("size", "size_of", "size_of_val")):
+                            continue
+                        for tgt, tv in B.switch_truth(tt).items():
+                            truth = tv != c["neg"]
+                            nonzero = truth if c["op"] in ("Ne", "Gt", "Lt") else not truth
+                            if nonzero and not c03.reachable_without(B, {(sj, tgt)}, set(), bi):
+                                guarded = True
+                    if guarded:
+                        ok = True
+                    else:
+                        why = "the source Box's storage is released with a raw `dealloc` that is not guarded by `size != 0`: a Box of a zero-sized type owns no storage (its pointer is dangling), so this frees memory that was never allocated"
             # no Drop terminator on the Box<T> parameter on normal paths
             for i, bl in enumerate(b["blocks"]):
                 tt = bl["term"]
